@@ -57,6 +57,14 @@ rc0, out0, _ = run(["/venv/bin/python", demo], cwd=src, timeout=120)
 meta["demo_without_change_exit"] = rc0
 ap = subprocess.run(["git", "-C", wt, "apply", patch], capture_output=True, text=True)
 if ap.returncode != 0:
+    # the repository moved on (a later fix touched the context lines): merge the change onto HEAD and keep the refreshed patch
+    ap = subprocess.run(["git", "-C", wt, "apply", "--3way", patch], capture_output=True, text=True)
+    if ap.returncode == 0:
+        subprocess.run(["git", "-C", wt, "reset", "-q"], check=True)
+        with open(patch, "w") as f:
+            f.write(subprocess.check_output(["git", "-C", wt, "diff"], text=True))
+        print("patch refreshed against HEAD (3-way)")
+if ap.returncode != 0:
     print("PATCH DOES NOT APPLY:", ap.stderr[:500])
     meta["applies"] = False
 else:
